@@ -7,7 +7,7 @@ use serde_json::{json, Value};
 use crate::common::{Args, Report, Rng};
 use super::model::*;
 use super::pool::{Obs, Worker};
-use super::{alloc_limit, archive, real, short_hex, strs};
+use super::{alloc_limit, archive, real, short_hex};
 
 const PID: &str = "C27";
 
@@ -109,7 +109,7 @@ fn evaluate(rep: &mut Report, job: &Job, obs: &Obs, samples: bool) {
     }
 }
 
-pub fn run(rep: &mut Report, lines: &[Value], arch_lines: &[Value], args: &Args) {
+pub fn run(rep: &mut Report, lines: &[super::CLine], arch_lines: &[Value], args: &Args) {
     let nworkers = args.opt_usize("jobs", 6);
     let only = args.opt("only").unwrap_or("");
     let t = std::time::Instant::now();
@@ -126,25 +126,23 @@ pub fn run(rep: &mut Report, lines: &[Value], arch_lines: &[Value], args: &Args)
 // ---------------------------------------------------------------------------
 // the five record types
 
-fn records(rep: &mut Report, lines: &[Value], args: &Args, nworkers: usize) {
+fn records(rep: &mut Report, lines: &[super::CLine], args: &Args, nworkers: usize) {
     let mut jobs = Vec::new();
     let mut real_bytes_cache: std::collections::HashMap<String, bool> = Default::default();
     let mut mirror_bad = 0u64;
     for (n, l) in lines.iter().enumerate() {
-        let rec = l["rec"].as_str().unwrap();
-        let cls = strs(&l["cls"]);
-        let enc = bytes_of(&l["enc"]);
-        let nrest = l["rest"].as_u64().unwrap() as usize;
-        let c = Corr::from_json(&l["c"]);
-        let inp = c.apply(&enc);
+        let rec = l.rec;
+        let cls = l.cls.clone();
+        let enc = &l.enc;
+        let nrest = l.rest;
+        let c = l.c.clone();
+        let inp = c.apply(enc);
         // the Rust mirror of the intended decoder must agree with TLC on every line
         let pred = mirror_decode(rec, &inp);
-        let exp = &l["exp"];
-        let same = pred.outcome == exp["outcome"].as_str().unwrap() && pred.fi as u64 == exp["fi"].as_u64().unwrap()
-            && (pred.outcome != "value" || pred.pos as u64 == exp["pos"].as_u64().unwrap());
+        let same = pred.outcome == l.exp_outcome && pred.fi == l.exp_fi && (pred.outcome != "value" || pred.pos == l.exp_pos);
         if !same {
             mirror_bad += 1;
-            rep.divergence(PID, format!("mirror decoder {:?} vs TLC {} on {rec} {cls:?} {}", pred, exp, c.label()));
+            rep.divergence(PID, format!("mirror decoder {:?} vs TLC ({}, fi {}, pos {}) on {rec} {cls:?} {}", pred, l.exp_outcome, l.exp_fi, l.exp_pos, c.label()));
         }
         if c.k == "none" { continue }
         let exact = *real_bytes_cache.entry(format!("{rec}|{cls:?}")).or_insert_with(|| {
@@ -158,16 +156,16 @@ fn records(rep: &mut Report, lines: &[Value], args: &Args, nworkers: usize) {
             id: format!("m{n}"), line: format!("D m{n} {rec} {}", hex(&inp)), base: None, file: None, input_len: inp.len(),
             sig: format!("codec/{rec}.{}/{cls_sig}", field_name(rec, pred.fi)), pred: Some(pred), exact,
             key: format!("{rec}|{cls:?}|{}|{nrest}", c.label()),
-            behaviour: json!({"rec": rec, "cls": cls, "corruption": l["c"], "label": c.label(), "trailing": nrest, "input": short_hex(&inp)}),
+            behaviour: json!({"rec": rec, "cls": cls, "corruption": l.corr_json(), "label": c.label(), "trailing": nrest, "input": short_hex(&inp)}),
         });
     }
     if mirror_bad > 0 { rep.add_note(PID, "mirror_mismatches", mirror_bad); }
     // large representatives: the harness' own instantiation of the corruption operators
     let mut done: std::collections::HashSet<String> = Default::default();
     let mut inflated_jobs = 0u64;
-    for l in lines.iter().filter(|l| l["c"]["k"] == "none" && l["rest"] == 0) {
-        let rec = l["rec"].as_str().unwrap();
-        let cls = strs(&l["cls"]);
+    for l in lines.iter().filter(|l| l.c.k == "none" && l.rest == 0) {
+        let rec = l.rec;
+        let cls = l.cls.clone();
         let g = grammar(rec);
         let infl: Vec<usize> = g.iter().zip(&cls).enumerate().filter(|(_, ((_, t), c))| inflatable(*t, c)).map(|(i, _)| i).collect();
         if infl.is_empty() { continue }
